@@ -223,3 +223,7 @@ def obligations(chk):
     none_rejects_obligations(chk)
     literal_obligations(chk)
     composite_obligations(chk)
+    # the declared members of a Literal reach the routine through inspection.args(t, evaluate=True) -> refs.evaluate: a member
+    # that is not a reference object (a string literal above all) must come through unchanged (contract shared with C07)
+    from props import c07
+    c07.evaluate_obligations(chk)
